@@ -1,6 +1,6 @@
 #!/bin/sh
 # Simulates the harness: fresh clone of /verif HEAD, setup_cmd, every quick_cmd once on the unchanged tree, evidence validation, timings.
-set -e
+
 D=$(mktemp -d /tmp/selfcheck.XXXXXX)
 git -C /verif clone -q /verif "$D/verif"
 cd "$D/verif"
